@@ -62,7 +62,40 @@ Record aobs := {
   a_oftype1 : list (Z * (option nat + unit))   (* get_wrapper_of_type(T): None / position in all_wrappers / AssertionError *)
 }.
 
-Definition case_t : Type := (stack * list Z * obs * astack * aobs)%type.
+(* one observed step of the access history: the stack it addressed, the access, what it returned *)
+Definition hstep : Type := (stack * hop * hres)%type.
+
+Definition case_t : Type := (stack * list Z * obs * astack * aobs * list hstep)%type.
+
+Definition hres_eqb (a b : hres) : bool :=
+  match a, b with
+  | HRAll x, HRAll y => gres_eqb x y
+  | HRLen x, HRLen y => opt_eqb Z.eqb x y
+  | HRItem x, HRItem y => opt_eqb sample_eqb x y
+  | _, _ => false
+  end.
+
+(* model vs implementation: every step of the history returned what the (stateless) model says *)
+Definition hist_model_agrees (h : list hstep) : bool :=
+  list_eqb hres_eqb (run_hist (map fst h)) (map snd h).
+
+(* the spec on one observed step: the same clauses as spec_holds, for the stack the step addressed, wherever the
+   step stands in the history *)
+Definition hstep_spec (st : hstep) : bool :=
+  let '(s, o, r) := st in
+  if negb (valid s) then true else
+  let d := den_of s in
+  match o, r with
+  | HItem k, HRItem it => if in_dom d k then opt_eqb sample_eqb (at_ d k) it else true
+  | HLen, HRLen n => if is_fin d then opt_eqb Z.eqb (Some (zlen (map_of s))) n else true
+  | HGetall, HRAll g =>
+      match g with
+      | GOk _ _ => if is_fin d && lists_ok s then gres_is g (map_of s) else true
+      | _ => true          (* whether it had to be offered: model comparison and Python oracle *)
+      end
+  | HUtil, HRAll g => if is_fin d && (negb (has_getall s) || lists_ok s) then gres_is g (map_of s) else true
+  | _, _ => false
+  end.
 
 Definition model_agrees (s : stack) (ks : list Z) (o : obs) : bool :=
   opt_eqb Z.eqb (slen s) (o_len o)
@@ -164,11 +197,13 @@ Definition attr_spec_holds (s : stack) (a : astack) (o : aobs) : bool :=
      end.
 
 Definition check (c : case_t) : nat :=
-  let '(s, ks, o, a, ao) := c in
+  let '(s, ks, o, a, ao, h) := c in
   if negb (Bool.eqb (ctor_ok s && actor_ok a) (o_ctor o)) then 1%nat
   else if negb (o_ctor o) then 0%nat
   else if valid s && negb (spec_holds s ks o) then 2%nat
+  else if negb (forallb hstep_spec h) then 2%nat
   else if negb (attr_spec_holds s a ao) then 2%nat
   else if negb (model_agrees s ks o) then 1%nat
+  else if negb (hist_model_agrees h) then 1%nat
   else if negb (attr_model_agrees s a ao) then 1%nat
   else 0%nat.
